@@ -71,12 +71,27 @@ def r1_destination_provenance(run):
             if isinstance(url, ast.Subscript) and not unparse(url).startswith(
                     "destinations("):
                 rec = unparse(url.value)     # the record whose location is used
-                ok = any(isinstance(e, ast.Compare) and p and
-                         isinstance(e.ops[0], ast.Eq) and
-                         "%s['index']" % rec in (unparse(e.left),
-                                                 unparse(e.comparators[0]))
-                         and "_index" in unparse(e)
-                         for e, p, _ in gs)
+
+                def index_eq(name, guards):
+                    return any(isinstance(e, ast.Compare) and p and
+                               isinstance(e.ops[0], ast.Eq) and
+                               "%s['index']" % name in (
+                                   unparse(e.left), unparse(e.comparators[0]))
+                               and "_index" in unparse(e)
+                               for e, p, _ in guards)
+                ok = index_eq(rec, gs)
+                if not ok and isinstance(url.value, ast.Name):
+                    # the record was picked earlier (`match = srv` under the
+                    # equality, None otherwise) and is used only when found
+                    defs = cfg.rd.reaching(rec, r.id)
+                    picks = [d for d in defs if isinstance(d.value, ast.Name)]
+                    nones = [d for d in defs if isinstance(d.value, ast.Constant)
+                             and d.value.value is None]
+                    ok = bool(picks) and len(picks) + len(nones) == len(defs) \
+                        and all(index_eq(d.value.id, cfg.guards(d.node))
+                                for d in picks) and (
+                            not nones or Q("%s is not None" % rec, True)
+                            in facts(cfg, r.id))
                 run.check(ok, "R1", key, "registered location of the endpoint "
                           "whose index equals the requested one",
                           "metadata location returned without the index "
@@ -309,6 +324,11 @@ def r4_store_side(run, rule="R4"):
               "lookup path changed: %s" % subs[:6], fs.loc())
 
 
+# accessors whose name is not the md member they read (confirmed by reading)
+ACCESSOR_SERVICE = {"authn_query_service": "authn_query_service",
+                    "discovery_response": "discovery_response"}
+
+
 def r5_accessors_pass_binding(run, rule="R5"):
     run.rule(rule, "the typed service accessors of MetadataStore hand the "
              "caller's binding (or their documented default when none is "
@@ -333,6 +353,18 @@ def r5_accessors_pass_binding(run, rule="R5"):
             got = {(x.kind, x.text) for x in org.of(a, nd.id)} \
                 if a is not None else set()
             key = "%s::%s" % (fi.qual, norm_text(c)[:70])
+            # the accessor asks for the service it is named after
+            sv = arg_of(c, 2, "service")
+            svt = cfg.itext(sv, nd.id) if sv is not None else None
+            want = ACCESSOR_SERVICE.get(name, name)
+            if attr_chain(c.func) == "self.ext_service":
+                continue       # extension services are keyed by {ns}&tag
+            run.check(svt == repr(want), rule,
+                      "%s::service-name" % fi.qual,
+                      "looks up '%s'" % want,
+                      "accessor %s() looks up %s: the endpoints of another "
+                      "service are handed out as if registered for this one" %
+                      (name, svt), fi.loc(c))
             run.check(("param", "binding") in got, rule, key,
                       "asks for the caller's binding",
                       "the store is asked for binding %s whatever binding the "
